@@ -1,5 +1,7 @@
 import ProcSim.Lemmas.Cli
-import ProcSim.Spec.Sim
+import ProcSim.Lemmas.Isa
+import ProcSim.Lemmas.SimCore
+import ProcSim.Model.Pipeline
 /-!
 # C16 — the printed table renders the diagram
 
@@ -229,5 +231,312 @@ theorem checkC16_model (sh : N → String) (hsh : Function.Injective sh) (d : Li
     ∃ tbl, Cli.render sh d n = .ok tbl ∧ checkC16 sh d n tbl = none := by
   obtain ⟨tbl, h1, h2⟩ := C16_render_cells sh hsh d n hok hnd
   exact ⟨tbl, h1, (checkC16_iff sh hsh d n tbl hnd).2 h2⟩
+
+/-! ## composition with the simulator -/
+
+/-- the positions of instruction `i` in cycle `t` that `Ctx.positions` concatenates -/
+def C16_posRow (units : List (UnitM N)) (row : List (N × List HI)) (t i : Nat) : List (Nat × UnitM N × Stall) :=
+  units.flatMap (fun u => ((Bag.get row u.name).filter (fun h => h.idx == i)).map (fun h => (t, u, h.st)))
+
+theorem C16_positions_eq (p : Proc N) (prog : List (Instr N)) (tbl : List (Util N)) (st : Bool) (i : Nat) :
+    (ctx p prog tbl st).positions i =
+      (List.range tbl.length).flatMap (fun t => C16_posRow p.allUnits (tbl.getD t []) t i) := rfl
+
+theorem C16_posRow_length (units : List (UnitM N)) (row : List (N × List HI)) (t i : Nat) :
+    (C16_posRow units row t i).length = (units.map (fun u => cntI i (Bag.get row u.name))).sum := by
+  simp [C16_posRow, List.length_flatMap, cntI]
+
+theorem C16_posRow_fst (units : List (UnitM N)) (row : List (N × List HI)) (t i : Nat) :
+    ∀ x ∈ (C16_posRow units row t i).map (·.1), x = t := by
+  intro x hx
+  simp only [C16_posRow, List.map_flatMap, List.map_map, List.mem_flatMap, List.mem_map, Function.comp] at hx
+  obtain ⟨u, _, h, _, rfl⟩ := hx
+  rfl
+
+theorem C16_posRow_occ (units : List (UnitM N)) (row : List (N × List HI)) (t i : Nat)
+    (h : C16_posRow units row t i ≠ []) : 1 ≤ occN row i := by
+  obtain ⟨x, hx⟩ := List.exists_mem_of_ne_nil _ h
+  simp only [C16_posRow, List.mem_flatMap, List.mem_map, List.mem_filter, beq_iff_eq] at hx
+  obtain ⟨u, _, hh, ⟨hm, hi⟩, _⟩ := hx
+  have : ({ unit := u.name, st := hh.st } : Pos N) ∈ writesOf row i :=
+    (mem_writesOf row i _).2 ⟨(u.name, Bag.get row u.name), mem_of_bag_get row u.name _ hm, hh, hm, hi, rfl⟩
+  rw [← writesOf_length]
+  exact List.length_pos_of_mem this
+
+theorem C16_comp_aux (p : Proc N) (prog : List (Instr N)) (tbl : List (List (N × List HI)))
+    (hnd : ∀ c ∈ tbl, (AMap.keys c).Nodup)
+    (h03 : (Spec.C03 (ctx p prog tbl false)).ok = true) :
+    diagramOK tbl prog.length = true := by
+  simp only [Spec.C03, Clauses.ok, List.all_cons, List.all_nil, Bool.and_true, Bool.and_eq_true] at h03
+  obtain ⟨c1, ⟨c2a, c2b⟩, c3, c4, -⟩ := h03
+  have hk : (ctx p prog tbl false).enteredCount = prog.length := by
+    simpa [ctx, Ctx.n] using c3
+  rw [hk] at c1 c4
+  simp only [List.all_eq_true, List.mem_range, decide_eq_true_eq, beq_iff_eq] at c1 c2a c2b c4
+  have c1' : ∀ i, i < prog.length → (ctx p prog tbl false).positions i ≠ [] := by
+    intro i hi
+    have := c1 i hi
+    simp only [Ctx.issued, hi, decide_true, Bool.not_eq_true', List.isEmpty_eq_false_iff] at this
+    exact this
+  have c2a' : ∀ t, t < tbl.length → ∀ u ∈ p.allUnits, ∀ h ∈ Bag.get (tbl.getD t []) u.name, h.idx < prog.length :=
+    fun t ht u hu h hh => c2a t ht u hu h hh
+  have c2b' : ∀ t, t < tbl.length → ∀ e ∈ tbl.getD t [], e.2 ≠ [] → ∃ u ∈ p.allUnits, u.name = e.1 := by
+    intro t ht e he hne
+    have := c2b t ht e he
+    simp only [Bool.or_eq_true, List.isEmpty_iff, decide_eq_true_eq, List.mem_map] at this
+    rcases this with h | h
+    · exact absurd h hne
+    · exact h
+  have c4' : ∀ i, i < prog.length → consec (((ctx p prog tbl false).positions i).map (·.1)) = true := c4
+  clear c1 c2a c2b c3 c4 hk
+  have hrow : ∀ (t : Nat) (c : List (N × List HI)), tbl[t]? = some c → t < tbl.length ∧ tbl.getD t [] = c := by
+    intro t c hc
+    exact ⟨(List.getElem?_eq_some_iff.1 hc).1, by simp [List.getD_eq_getElem?_getD, hc]⟩
+  -- 1. only program instructions
+  have hidx : ∀ c ∈ tbl, ∀ e ∈ c, ∀ h ∈ e.2, h.idx < prog.length := by
+    intro c hc e he h hh
+    obtain ⟨t, ht⟩ := List.getElem?_of_mem hc
+    obtain ⟨htl, hr⟩ := hrow t c ht
+    obtain ⟨u, hu, hname⟩ := c2b' t htl e (by rw [hr]; exact he) (List.ne_nil_of_mem hh)
+    apply c2a' t htl u hu h
+    rw [hr, hname]
+    obtain ⟨ex, el⟩ := e
+    rw [bag_get_of_mem c ex el (hnd c hc) he]; exact hh
+  -- per instruction: the cycles in which it has a position form a range
+  have hper : ∀ i, i < prog.length → ∃ s m, 1 ≤ m ∧
+      (∀ t, t < tbl.length → (C16_posRow p.allUnits (tbl.getD t []) t i).length ≤ 1) ∧
+      (∀ t, (t < tbl.length ∧ C16_posRow p.allUnits (tbl.getD t []) t i ≠ []) ↔ (s ≤ t ∧ t < s + m)) := by
+    intro i hi
+    have hc := consec_eq_range' _ (c4' i hi)
+    have hne := c1' i hi
+    rw [C16_positions_eq] at hc hne
+    rw [List.map_flatMap] at hc
+    generalize hL : (List.range tbl.length).flatMap
+      (fun t => (C16_posRow p.allUnits (tbl.getD t []) t i).map (·.1)) = L at hc
+    have hmem : ∀ t, t ∈ L ↔ (t < tbl.length ∧ C16_posRow p.allUnits (tbl.getD t []) t i ≠ []) := by
+      intro t
+      rw [← hL, List.mem_flatMap]
+      constructor
+      · rintro ⟨t', ht', hx⟩
+        have := C16_posRow_fst _ _ _ _ t hx
+        subst this
+        exact ⟨List.mem_range.1 ht', fun e => by rw [e] at hx; simp at hx⟩
+      · rintro ⟨ht, hne⟩
+        obtain ⟨x, hx⟩ := List.exists_mem_of_ne_nil _ hne
+        refine ⟨t, List.mem_range.2 ht, ?_⟩
+        have hx' : x.1 ∈ (C16_posRow p.allUnits (tbl.getD t []) t i).map (·.1) := List.mem_map.2 ⟨x, hx, rfl⟩
+        rwa [C16_posRow_fst _ _ _ _ _ hx'] at hx'
+    have hLne : L ≠ [] := by
+      obtain ⟨x, hx⟩ := List.exists_mem_of_ne_nil _ hne
+      obtain ⟨t, ht, hxt⟩ := List.mem_flatMap.1 hx
+      intro e
+      have : t ∈ L := (hmem t).2 ⟨List.mem_range.1 ht, List.ne_nil_of_mem hxt⟩
+      rw [e] at this; simp at this
+    have hnd' : L.Nodup := by rw [hc]; exact List.nodup_range' 1
+    refine ⟨L.headD 0, L.length, ?_, ?_, ?_⟩
+    · cases L with
+      | nil => exact absurd rfl hLne
+      | cons _ _ => simp
+    · intro t ht
+      rw [← hL] at hnd'
+      have := (List.pairwise_flatMap.1 hnd').1 t (List.mem_range.2 ht)
+      have := nodup_const_length this (C16_posRow_fst _ _ _ _)
+      simpa using this
+    · intro t
+      rw [← hmem t]
+      conv => lhs; rw [hc]
+      rw [List.mem_range']
+      constructor
+      · rintro ⟨j, hj, rfl⟩; omega
+      · rintro ⟨h1, h2⟩; exact ⟨t - L.headD 0, by omega, by omega⟩
+  -- occurrences in a record versus positions
+  have hocc : ∀ i (t : Nat) (c : List (N × List HI)), tbl[t]? = some c →
+      occN c i ≤ (C16_posRow p.allUnits (tbl.getD t []) t i).length ∧
+      (C16_posRow p.allUnits (tbl.getD t []) t i ≠ [] → 1 ≤ occN c i) := by
+    intro i t c hc
+    obtain ⟨htl, hr⟩ := hrow t c hc
+    rw [hr]
+    refine ⟨?_, C16_posRow_occ _ _ _ _⟩
+    rw [C16_posRow_length]
+    exact occN_le_units p.allUnits c i (hnd c (List.mem_of_getElem? hc))
+      (fun e he hne => c2b' t htl e (by rw [hr]; exact he) hne)
+  have hiff : ∀ i, i < prog.length → ∀ (t : Nat) (c : List (N × List HI)), tbl[t]? = some c →
+      occN c i ≤ 1 ∧ (occN c i = 1 ↔ C16_posRow p.allUnits (tbl.getD t []) t i ≠ []) := by
+    intro i hi t c hc
+    obtain ⟨s, m, _, h1, _⟩ := hper i hi
+    obtain ⟨htl, _⟩ := hrow t c hc
+    obtain ⟨ha, hb⟩ := hocc i t c hc
+    have := h1 t htl
+    refine ⟨by omega, fun h => ?_, fun h => ?_⟩
+    · intro e; rw [e] at ha; simp at ha; omega
+    · have := hb h; omega
+  apply diagramOK_intro tbl prog.length hidx
+  · intro i hi c hc
+    obtain ⟨t, ht⟩ := List.getElem?_of_mem hc
+    exact (hiff i hi t c ht).1
+  · intro i hi
+    obtain ⟨s, m, hm, _, h2⟩ := hper i hi
+    obtain ⟨hs, hne⟩ := (h2 s).2 ⟨Nat.le_refl _, by omega⟩
+    exact ⟨tbl[s], List.getElem_mem hs, ((hiff i hi s tbl[s] (List.getElem?_eq_getElem hs)).2).2 hne⟩
+  · intro i hi t1 t2 t3 c1 c3 h12 h23 hc1 hc3 e1 e3
+    obtain ⟨s, m, hm, _, h2⟩ := hper i hi
+    have a1 := (h2 t1).1 ⟨(hrow t1 c1 hc1).1, ((hiff i hi t1 c1 hc1).2).1 e1⟩
+    have a3 := (h2 t3).1 ⟨(hrow t3 c3 hc3).1, ((hiff i hi t3 c3 hc3).2).1 e3⟩
+    obtain ⟨h2l, hne⟩ := (h2 t2).2 ⟨by omega, by omega⟩
+    exact ⟨tbl[t2], List.getElem?_eq_getElem h2l, ((hiff i hi t2 tbl[t2] (List.getElem?_eq_getElem h2l)).2).2 hne⟩
+
+/-- **C16 (composition)**: a returned diagram that passes C03's checker is gap-free in the sense of `diagramOK`. -/
+theorem C16_cli_composition (p : Proc N) (prog : List (Instr N)) (tbl : List (Util N))
+    (hnd : ∀ c ∈ tbl, (AMap.keys c).Nodup)
+    (h03 : (Spec.C03 (ctx p prog tbl false)).ok = true) :
+    diagramOK tbl prog.length = true :=
+  C16_comp_aux p prog tbl hnd h03
+
+/-- the table printed for a returned diagram that passes C03's checker satisfies `C16_Holds` -/
+theorem C16_cli_table (sh : N → String) (hsh : Function.Injective sh) (p : Proc N) (prog : List (Instr N))
+    (tbl : List (Util N)) (hnd : ∀ c ∈ tbl, (AMap.keys c).Nodup)
+    (h03 : (Spec.C03 (ctx p prog tbl false)).ok = true) :
+    ∃ out, Cli.render sh tbl prog.length = .ok out ∧ C16_Holds sh tbl prog.length out :=
+  C16_render_cells sh hsh tbl prog.length (C16_cli_composition p prog tbl hnd h03) hnd
+
+section sim
+variable [LT N] [DecidableRel (α := N) (· < ·)]
+
+/-- the records of a diagram of `simulate` have unique keys (from `Lemmas/SimCore`: `Diagram_rowBase`) -/
+theorem C16_diagram_keys_nodup (p : Proc N) (prog : List (Instr N)) (tbl : List (Util N)) (stalled : Bool)
+    (hn : (p.allUnits.map (·.name)).Nodup) (hD : Spec.Diagram p prog tbl stalled) :
+    ∀ c ∈ tbl, (AMap.keys c).Nodup := by
+  obtain ⟨e, _, hrows⟩ := Diagram_rowBase hn hD
+  intro c hc
+  obtain ⟨t, ht⟩ := List.getElem?_of_mem hc
+  have := (hrows t).keys_nodup
+  rwa [show tbl.getD t ([] : List (N × List HI)) = c by simp [List.getD_eq_getElem?_getD, ht]] at this
+
+/-- **C16 (composition), for the simulator's own diagrams**: the only thing taken from C03 is its conclusion. -/
+theorem C16_cli_composition_sim (sh : N → String) (hsh : Function.Injective sh) (p : Proc N) (prog : List (Instr N))
+    (tbl : List (Util N)) (hn : (p.allUnits.map (·.name)).Nodup) (hD : Spec.Diagram p prog tbl false)
+    (h03 : (Spec.C03 (ctx p prog tbl false)).ok = true) :
+    diagramOK tbl prog.length = true ∧
+    ∃ out, Cli.render sh tbl prog.length = .ok out ∧ C16_Holds sh tbl prog.length out := by
+  have hnd := C16_diagram_keys_nodup p prog tbl false hn hD
+  exact ⟨C16_cli_composition p prog tbl hnd h03, C16_cli_table sh hsh p prog tbl hnd h03⟩
+
+end sim
+
+/-! ## the composed command-line model (`Model/Pipeline.lean`) -/
+
+theorem C16_front_compile (desc : Loader.Desc Pipeline.Str) (rawIsa : List (Pipeline.Str × Pipeline.Str))
+    (lines : List Pipeline.Str) (st : Pipeline.Stages) (h : Pipeline.front desc rawIsa lines = .ok st) :
+    Isa.compileProgram st.isa st.parsed = .ok st.prog := by
+  unfold Pipeline.front at h
+  split at h
+  · cases h
+  · split at h
+    · cases h
+    · split at h
+      · cases h
+      · split at h
+        · cases h
+        · cases h; assumption
+
+/-- the command line prints, for every run that completes and whose diagram passes C03's checker, a table that
+satisfies `C16_Holds` for that diagram (unit names printed as they are). `wfProc`'s first conjunct (unique unit
+names) gives the unique keys. -/
+theorem C16_cli_pipeline (desc : Loader.Desc Pipeline.Str) (rawIsa : List (Pipeline.Str × Pipeline.Str))
+    (lines : List Pipeline.Str) (st : Pipeline.Stages) (tbl : List (Util Pipeline.Str))
+    (hrun : Pipeline.run desc rawIsa lines = .ok (st, .done tbl))
+    (hn : (st.proc.allUnits.map (·.name)).Nodup)
+    (h03 : (Spec.C03 (ctx st.proc st.prog tbl false)).ok = true) :
+    ∃ t, Pipeline.cliTable desc rawIsa lines = some t ∧ C16_Holds String.ofList tbl st.prog.length t := by
+  have hfront : Pipeline.front desc rawIsa lines = .ok st ∧ simulate st.proc st.prog = .done tbl := by
+    unfold Pipeline.run at hrun
+    split at hrun
+    · cases hrun
+    · rename_i st' hst'
+      simp only [Except.ok.injEq, Prod.mk.injEq] at hrun
+      obtain ⟨rfl, h2⟩ := hrun
+      exact ⟨hst', h2⟩
+  have hlen : st.parsed.length = st.prog.length :=
+    (IsaLemmas.compileProgram_length _ _ _ (C16_front_compile desc rawIsa lines st hfront.1)).symm
+  have hD : Spec.Diagram st.proc st.prog tbl false := .inl ⟨rfl, hfront.2⟩
+  obtain ⟨_, out, hr, hH⟩ := C16_cli_composition_sim String.ofList (fun _ _ h => String.ofList_injective h)
+    st.proc st.prog tbl hn hD h03
+  refine ⟨out, ?_, hH⟩
+  unfold Pipeline.cliTable
+  rw [hrun]
+  simp only [hlen, hr]
+
+/-! ## non-vacuity -/
+
+section Examples
+
+/-- two instructions through two units: 0 in unit 0 then unit 1; 1 one cycle behind, stalled once -/
+def C16_exDiagram : List (Cycle Nat) :=
+  [[(0, [⟨0, .U⟩])], [(0, [⟨1, .U⟩]), (1, [⟨0, .U⟩])], [(0, [⟨1, .S⟩])], [(1, [⟨1, .U⟩]), (0, [])]]
+
+def C16_exSh (n : Nat) : String := if n = 0 then "a" else "b"
+
+example : diagramOK C16_exDiagram 2 = true := by decide
+example : ∀ c ∈ C16_exDiagram, (AMap.keys c).Nodup := by decide
+
+example : (match Cli.render C16_exSh C16_exDiagram 2 with
+    | .ok tbl => decide (tbl = [["", "1", "2", "3", "4"], ["I1", "U:a", "U:b"], ["I2", "", "U:a", "S:a", "U:b"]])
+    | .error _ => false) = true := by decide
+
+example : checkC16 C16_exSh C16_exDiagram 2
+    [["", "1", "2", "3", "4"], ["I1", "U:a", "U:b"], ["I2", "", "U:a", "S:a", "U:b"]] = none := by decide
+
+/-- a wrong label, a missing cell and a wrong header are each refuted by the checker -/
+example : checkC16 C16_exSh C16_exDiagram 2
+    [["", "1", "2", "3", "4"], ["I1", "U:a", "U:b"], ["I2", "", "U:a", "U:a", "U:b"]] ≠ none := by decide
+example : checkC16 C16_exSh C16_exDiagram 2
+    [["", "1", "2", "3", "4"], ["I1", "U:a"], ["I2", "", "U:a", "S:a", "U:b"]] ≠ none := by decide
+example : checkC16 C16_exSh C16_exDiagram 2
+    [["", "1", "2", "3"], ["I1", "U:a", "U:b"], ["I2", "", "U:a", "S:a", "U:b"]] ≠ none := by decide
+
+/-- the explicit errors are reachable when `diagramOK` fails: a gap (`KeyError`), an instruction that never appears
+(`ValueError`), an index beyond the program (`IndexError`) -/
+example : diagramOK ([[(0, [⟨0, .U⟩])], [], [(0, [⟨0, .U⟩])]] : List (Cycle Nat)) 1 = false := by decide
+example : (match Cli.render C16_exSh ([[(0, [⟨0, .U⟩])], [], [(0, [⟨0, .U⟩])]] : List (Cycle Nat)) 1 with
+    | .error e => decide (e = .gap 0 1)
+    | .ok _ => false) = true := by decide
+example : (match Cli.render C16_exSh ([[(0, [⟨0, .U⟩])]] : List (Cycle Nat)) 2 with
+    | .error e => decide (e = .neverAppears 1)
+    | .ok _ => false) = true := by decide
+example : (match Cli.render C16_exSh ([[(0, [⟨3, .U⟩])]] : List (Cycle Nat)) 2 with
+    | .error e => decide (e = .badIndex 0 3)
+    | .ok _ => false) = true := by decide
+
+/-- `Function.Injective sh` cannot be dropped from `C16_render_cells` -/
+theorem C16_injective_needed :
+    ¬ (∀ tbl, Cli.render (fun _ : Nat => "x") [[(0, [⟨0, .U⟩])]] 1 = .ok tbl →
+        C16_Holds (fun _ : Nat => "x") [[(0, [⟨0, .U⟩])]] 1 tbl) := by
+  intro h
+  have hH := h [["", "1"], ["I1", "U:x"]] (by rfl)
+  have := ((hH.2.2.2 1 1 (Nat.le_refl _) (Nat.le_refl _) (Nat.le_refl _)).1 .U 1).1 (by decide)
+  obtain ⟨c, hc, hm⟩ := this
+  simp at hc
+  subst hc
+  revert hm
+  decide
+
+/-- unique keys cannot be dropped from `checkC16_iff` -/
+theorem C16_check_nodup_needed :
+    ¬ (checkC16 (fun _ : Unit => "x") [[((), []), ((), [⟨0, .U⟩])]] 1 [["", "1"], ["I1", "U:x"]] = none ↔
+        C16_Holds (fun _ : Unit => "x") [[((), []), ((), [⟨0, .U⟩])]] 1 [["", "1"], ["I1", "U:x"]]) := by
+  intro h
+  have hH := h.1 (by decide)
+  have h4 := (hH.2.2.2 1 1 (Nat.le_refl _) (Nat.le_refl _) (Nat.le_refl _)).2
+  have : cell [["", "1"], ["I1", "U:x"]] 1 1 = "" := by
+    apply h4.2
+    rintro L u ⟨c, hc, hm⟩
+    simp at hc
+    subst hc
+    revert hm
+    cases L <;> cases u <;> decide
+  revert this
+  decide
+
+end Examples
 
 end ProcSim
